@@ -22,7 +22,9 @@ fn record(out: &mut Out, coll: &str, rng: &mut Rng, cfg: &RandCfg) -> (Vec<(Op, 
     let _ = std::fs::remove_dir_all(format!("{}/.tmp-inject", out.dir));
     if let Some(line) = hist.lines().next() {
         if let Some((_, o)) = line.split_once("::") {
-            for t in o.split(';') { if let Some(op) = Op::parse(t.trim()) { ops.push(op); } }
+            // (the consuming `into_ordered_vec` that ends a random history is the harness's own move of the tree:
+            // no injection there)
+            for t in o.split(';') { if let Some(op) = Op::parse(t.trim()) { if op.name != "consume" { ops.push(op); } } }
         }
     }
     // replay quietly to learn expected keys of handle ops and callback counts
